@@ -128,9 +128,21 @@ def run(ctx):
     rows, reqs = requests(ctx, side, codes)
     rowmap = {r.key(): r for r in rows}
     lines = []; impl = []
-    for (g_, e, k, a, esaa, v) in reqs:
+    # calls that fail part-way (a mark that is no number) are made in between: whatever they raise, they must not
+    # change what later calls answer (an option applied to shared rows and not undone when the call raises)
+    BAD = ['x', None, float('nan'), [], '12,5']
+    faults = {}; nfault = 0
+    for i, (g_, e, k, a, esaa, v) in enumerate(reqs):
+        if i % 389 == 0:
+            for fg, fe, fa, fes in (('M', '800', None, True), ('M', '800', a, True), (g_, e, a, True), (g_, e, a, esaa)):
+                bad = BAD[(i // 389 + nfault) % len(BAD)]; nfault += 1
+                try: athlib.athlon_score(fg, fe, bad, age=fa, esaa=fes)
+                except Exception: pass
+                faults[i] = 'athlib.athlon_score(%r, %r, %r, age=%r, esaa=%r)' % (fg, fe, bad, fa, fes)
         lines.append('ath\tscore\t%s\t%s\t%d\t%s\t%d' % (g_, e, k, '-' if a is None else a, 1 if esaa else 0))
         impl.append(AC.canon(lambda: athlib.athlon_score(g_, e, v, age=a, esaa=esaa)))
+    ctx.count(nfault, 'failing_calls_in_between')
+    fault_idx = sorted(faults)
     model = vlib.driver_parallel(lines)
     ctx.count(len(lines), 'score_lines')
     ages = json.load(open(os.path.join(vlib.GEN, 'athlon.json')))
@@ -151,9 +163,12 @@ def run(ctx):
                       '%r: oracle %s, Lean model %s, implementation %s' % (rq[:5], want, mo, im))
         else:
             prev = [list(r[:5]) for r in reqs[max(0, i - 3):i]]
+            import bisect
+            j = bisect.bisect_right(fault_idx, i) - 1
+            lastfault = faults[fault_idx[j]] if j >= 0 else None
             ctx.fail('athlib.athlon_score', [g_, e, v, a, esaa], mo, im,
-                     note=('age' if a else ('int-form' if isinstance(v, int) else 'float-form')) + '; preceding calls in this run: %r' % prev,
-                     replay_py='result = athlib.athlon_score(%r, %r, %r, age=%r, esaa=%r)' % (g_, e, v, a, esaa))
+                     note=('age' if a else ('int-form' if isinstance(v, int) else 'float-form')) + '; preceding calls in this run: %r; last call made with a non-numeric mark before it: %s' % (prev, lastfault),
+                     replay_py=('try: %s\nexcept Exception: pass\n' % lastfault if lastfault else '') + 'result = athlib.athlon_score(%r, %r, %r, age=%r, esaa=%r)' % (g_, e, v, a, esaa))
     ctx.stats['disagreements'] = nd
     ctx.stats['nontrivial_lines'] = nont
     ctx.distinct = set(range(nont))
